@@ -253,3 +253,6 @@ def run(ctx):
             good = good and bool(ge) and n.id not in ig.reach([ig.entry], removed_edges=ge) and thr is not None
         return good and len(set(s["fn"].key for s in pushes if s["concurrent"] is False)) == 1
     L.check_queue_pairing(ctx, "C07.R5", sites, single_producer_ok=single_producer_ok)
+
+
+SWEEP = ["test_executor.cpp"]
